@@ -17,6 +17,8 @@ pub enum PEv {
     Register(u32),
     Notify(u32),
     Add(u32, AddMode),
+    /// the next add_appointment request to the tower is answered that way, then `Add` applies again
+    AddOnce(u32, AddMode),
     Reg(u32, RegMode),
     Down(u32, bool),
     Retry(u32),
@@ -58,6 +60,7 @@ impl PEv {
             PEv::Register(t) => format!("pl register {t}"),
             PEv::Notify(l) => format!("pl notify {l}"),
             PEv::Add(t, m) => format!("pl add {t} {}", add_tok(m)),
+            PEv::AddOnce(t, m) => format!("pl once {t} {}", add_tok(m)),
             PEv::Reg(t, m) => format!("pl reg {t} {}", reg_tok(m)),
             PEv::Down(t, d) => format!("pl down {t} {}", *d as u8),
             PEv::Retry(t) => format!("pl retry {t}"),
@@ -246,6 +249,10 @@ pub fn run_scenario(sc: &Scenario, idx: usize) -> Vec<Rec> {
                 w.set_add(*t, m.clone());
                 "ok".into()
             }
+            PEv::AddOnce(t, m) => {
+                w.towers[*t as usize].st.lock().unwrap().once = vec![m.clone()];
+                "ok".into()
+            }
             PEv::Reg(t, m) => {
                 w.set_reg(*t, m.clone());
                 "ok".into()
@@ -306,7 +313,7 @@ pub fn run_scenario(sc: &Scenario, idx: usize) -> Vec<Rec> {
             }
         };
         let view = match ev {
-            PEv::Add(..) | PEv::Reg(..) | PEv::Down(..) => Some(prev.clone()),
+            PEv::Add(..) | PEv::AddOnce(..) | PEv::Reg(..) | PEv::Down(..) => Some(prev.clone()),
             PEv::AwaitDelivered(..) => w.view().ok(),
             _ if timed => {
                 std::thread::sleep(Duration::from_millis(1200));
@@ -315,6 +322,11 @@ pub fn run_scenario(sc: &Scenario, idx: usize) -> Vec<Rec> {
             _ => settle(&mut w),
         };
         let Some(view) = view else {
+            // wedged (a handler died holding the state lock: nothing answers any more) or merely restless?
+            match w.plugin.call("listtowers", serde_json::json!([]), 5) {
+                Ok(_) => {}
+                Err(e) => out.push(Rec::Fail("C14", "client_wedged".into(), format!("after `{}` the client no longer answers listtowers ({}); process alive = {}", ev.line(), err_class(&e), w.plugin.alive()))),
+            }
             out.push(Rec::Fail("C13", "never_stable".into(), format!("the client did not reach a stable state within 40 s after `{}`", ev.line())));
             out.push(Rec::Line(ev.line(), format!("{reply} unstable")));
             break;
@@ -375,6 +387,8 @@ pub fn corpus() -> Vec<Scenario> {
         sc("rejected-appointments", vec![Register(0), Register(1), Add(0, Reject), Notify(0), Down(1, true), Notify(1), Down(1, false), Add(1, Reject), Retry(1), Restart]),
         sc("duplicate-notifications", vec![Register(0), Notify(0), Notify(0), Down(0, true), Notify(1), Notify(1), Notify(0), Down(0, false), Retry(0), Restart]),
         sc("abandon-while-unreachable", vec![Register(0), Register(1), Down(0, true), Notify(0), Abandon(0), Notify(1), Register(0), Notify(2), Retry(0)]),
+        sc("recovery-between-two-attempts", vec![Register(0), Down(0, true), Notify(0), Notify(1), Notify(2), Down(0, false), AddOnce(0, NonJson), Retry(0), Notify(3)]),
+        sc("one-bad-reply-on-notification", vec![Register(0), Register(1), AddOnce(0, WrongShape), Notify(0), AddOnce(1, SubErr), Notify(1), Notify(2)]),
         sc("kill-with-pending", vec![Register(0), Register(1), Down(0, true), Notify(0), Notify(1), Restart, Down(0, false), Restart, Notify(2)]),
         sc("register-replies", vec![PEv::Reg(0, RegMode::BadSig), Register(0), PEv::Reg(0, RegMode::NonJson), Register(0), PEv::Reg(0, RegMode::ApiError), Register(0), PEv::Reg(0, RegMode::Accept), Register(0), PEv::Reg(0, RegMode::Same), Register(0), PEv::Reg(0, RegMode::SameExpiry), Register(0), Down(0, true), Register(0), Notify(0)]),
         Scenario { name: "auto-retry-delivers".into(), towers: 1, opts: (2, 3, 1), events: vec![Register(0), Down(0, true), Notify(0), Notify(1), Down(0, false), AwaitDelivered(0, 14)] },
@@ -396,6 +410,7 @@ fn random_scenario(rng: &mut Rng, i: usize) -> Scenario {
         let t = rng.below(towers as u64) as u32;
         match rng.weighted(&[30, 12, 6, 8, 8, 10, 3, 5, 4]) {
             0 => ev.push(Notify(rng.below(4) as u32)),
+            1 if rng.chance(1, 4) => ev.push(AddOnce(t, rng.pick(&[AddMode::NonJson, AddMode::WrongShape, AddMode::Empty, AddMode::MalformedSig, AddMode::SubErr]).clone())),
             1 => ev.push(Add(t, rng.pick(&modes).clone())),
             2 => ev.push(PEv::Reg(t, rng.pick(&regs).clone())),
             3 => ev.push(Down(t, true)),
